@@ -12,7 +12,7 @@ From RU Require Import Base.Prelude Base.Utf8 Base.U32_c13 Gen.Tables Model.Puny
   Proofs.Idna_Sim Proofs.Idna_Api Proofs.Idna_Known Proofs.Idna_Hyp Proofs.Idna_Tables Proofs.Idna_Redisc
   Proofs.Idna_C10_Deny Proofs.Idna_C10_Prefix Proofs.Idna_C10_Inner Proofs.Idna_C10_Walk Proofs.Idna_C10_Config
   Proofs.Idna_C10b_Long Proofs.Idna_C10b_AsciiInner Proofs.Idna_C10b_AsciiWalk Proofs.Idna_C10b_Stmt Proofs.Idna_C10b_LongRej
-  Proofs.Idna_WalkEnc Proofs.Idna_C10c_Puny Proofs.Idna_C10c_Start Proofs.Idna_C10c_Drun Proofs.Idna_C10c_Idem Proofs.Idna_C10c_Example.
+  Proofs.Idna_WalkEnc Proofs.Idna_C10c_Puny Proofs.Idna_C10c_Start Proofs.Idna_C10c_Drun Proofs.Idna_C10c_Idem Proofs.Idna_C10c_Example Proofs.Idna_C10c_Refute.
 
 (* a borrowed result is the input *)
 Theorem C10_borrow : forall A cfg d deny hy dns r, to_ascii A cfg d deny hy dns = Ok (true, r) -> r = d.
@@ -142,6 +142,28 @@ Example C10_idem3_premises_hold :
   Known_C10_long W_idem3_A = false /\
   to_ascii lowsan true W_idem3_A DENY_URL HCheck DVerify = Ok (true, W_idem3_A).
 Proof. split; [exact lowsan_premises|exact w_idem3]. Qed.
+
+(* the premise MapPrefix was forced by the proof: C10_idem_statement2 (premises AdapterOK, NvNoTrunc, NvIdem, AsciiNoMark
+   only) is FALSE for an abstract adapter.  ctxad rewrites U+00EA to U+00EB exactly after "ab", in both normalizers; for
+   the label "ab" U+00EA uts46.rs maps only the tail "b" U+00EA, returns xn--ab-fja, and rejects that.  A refutation of
+   the STATEMENT, not a defect of the crate: the real map_normalize satisfies MapPrefix (sampled fact ok_map_prefix) *)
+Theorem C10_idem2_refuted : exists A cfg, AdapterOK A /\ NvNoTrunc A /\ NvIdem A /\ AsciiNoMark A /\ ~ C10_idem_statement2 A cfg.
+Proof. exact c10_idem2_refuted. Qed.
+Check C10_idem2_refuted : exists A cfg, AdapterOK A /\ NvNoTrunc A /\ NvIdem A /\ AsciiNoMark A /\ ~ C10_idem_statement2 A cfg.
+Print Assumptions C10_idem2_refuted.
+
+Theorem C10_idem2_witness :
+  to_ascii ctxad false W_idem2 DENY_EMPTY HAllow DIgnore = Ok (false, W_idem2_A) /\
+  Known_C10_long W_idem2_A = false /\
+  to_ascii ctxad false W_idem2_A DENY_EMPTY HAllow DIgnore = Err /\
+  map_normalize ctxad [97; 98; 234] = [97; 98; 235] /\ map_normalize ctxad [98; 234] = [98; 234].
+Proof. exact w_idem2. Qed.
+Check C10_idem2_witness :
+  to_ascii ctxad false W_idem2 DENY_EMPTY HAllow DIgnore = Ok (false, W_idem2_A) /\
+  Known_C10_long W_idem2_A = false /\
+  to_ascii ctxad false W_idem2_A DENY_EMPTY HAllow DIgnore = Err /\
+  map_normalize ctxad [97; 98; 234] = [97; 98; 235] /\ map_normalize ctxad [98; 234] = [98; 234].
+Print Assumptions C10_idem2_witness.
 
 (* the fastest tier of process_inner is invisible: process_inner is the label loop run from the start of the name
    (both error modes, every adapter) *)
